@@ -566,12 +566,19 @@ def r2_thresholds(ctx):
             r = Run(ctx, q, dvals)
             if _aborted(ctx, f"{q}: {label}", fn, r.ret):
                 continue
+            if r.order is None:
+                ctx.error(f"{q}: {label}", fn, f"no exponential solve mf._solve_P_Q(U, V) found on this route: {r.ret!r}"[:300])
+                continue
             verdict(ctx, r.order == want_order, f"{q}: {label}", r.pq.node if r.pq is not None else fn,
                     {"order used": r.order, "expected": want_order}, [r.ret])
         # order 13: scaling power
         r = Run(ctx, q, Fraction(10))
         tc = r.table_call()
         if _aborted(ctx, f"{q}: a norm estimate above theta_9 uses the scaled order-13 table", fn, r.ret):
+            continue
+        if r.order is None:
+            ctx.error(f"{q}: a norm estimate above theta_9 uses the scaled order-13 table", fn,
+                      f"no exponential solve mf._solve_P_Q(U, V) found on this route: {r.ret!r}"[:300])
             continue
         ok = r.order == 13 and tc is not None
         ctx.check(ok, f"{q}: a norm estimate above theta_9 uses the scaled order-13 table", r.pq.node if r.pq is not None else fn,
@@ -656,9 +663,12 @@ def r2_thresholds(ctx):
         leaf = [c for c in r.it.calls if c.name in LEAF_SOLVES]
         lu = [c for c in r.it.calls if c.name in ("la.lu_factor", "la.lu_solve")]
         ok = r.order is not None and r.order <= 9 and len(leaf) >= 2 and not lu
-        ctx.check(ok, "getEPQ: just below its switch constant getEPQ1's expmint is on a Pade route of order <= 9, for which the second "
-                      "integral has its own approximant (not the A^-1 formula / power series of the order-13 route)", fn,
-                  None if ok else {"switch constant": str(cst), "expmint order there": r.order})
+        if r.order is None and not _aborted(ctx, "getEPQ: route below the switch", fn, r.ret):
+            ctx.error("getEPQ: route below the switch", fn, f"no exponential solve mf._solve_P_Q(U, V) found on expmint's route: {r.ret!r}"[:300])
+        elif r.order is not None:
+            ctx.check(ok, "getEPQ: just below its switch constant getEPQ1's expmint is on a Pade route of order <= 9, for which the second "
+                          "integral has its own approximant (not the A^-1 formula / power series of the order-13 route)", fn,
+                      None if ok else {"switch constant": str(cst), "expmint order there": r.order})
     else:
         ctx.error("getEPQ: route below the switch", fn, "no single switch constant")
 
@@ -1101,37 +1111,100 @@ FLOAT_DTYPES = {"float", "np.float64", "np.double", "np.float_", "np.longdouble"
                 "'float'", "'f8'", "'complex128'", "'complex'"}
 
 
-def _shape_of(v, bufs):
-    """shape of a value of getEPQ2 as a tuple of symbols: A (and A h) is n x n (a state matrix is square), B (and B h) is r x i,
-    np.eye(k) is k x k, an allocated array has the shape it was allocated with; NotImplemented otherwise"""
+def _shape_of(v, shapes):
+    """shape of a value of getEPQ2 as a tuple of lengths: A (and A h) is n x n (a state matrix is square), an input matrix B (and B h)
+    is n x i (one row per state), np.eye(k) is k x k, an allocated array has the shape it was allocated with, exp(M) the shape of M;
+    a scalar multiple of one of those has its shape.  None when the value is none of these."""
     p = fn_parts(v)
-    if p is not None and p[0] == "eye":
-        return (p[1][0], p[1][0])
+    if p is not None and p[0] == "eye" and p[1] and isinstance(p[1][0], F.Rat):
+        return (p[1][0], p[1][-1] if isinstance(p[1][-1], F.Rat) else p[1][0])
     nm = I.sym_name(v)
-    if nm is not None and nm in bufs and isinstance(bufs[nm][0], tuple):
-        return bufs[nm][0]
+    if nm is not None:
+        if nm in shapes:
+            return shapes[nm] if isinstance(shapes[nm], tuple) else None
+        if nm == "A":
+            return (F.sym("n"), F.sym("n"))
+        if nm == "B":
+            return (F.sym("n"), F.sym("i"))
+        return None
     try:
-        if v.d.is_const() and len(v.n.t) == 1:
+        if isinstance(v, F.Rat) and v.d.is_const() and len(v.n.t) == 1:
             (mono, _c), = v.n.t.items()
-            mats = []
-            for a_, e_ in mono:
-                d_ = F.atom_desc(a_)
-                if d_[0] == "s" and d_[1] in ("A", "B"):
-                    mats.append((d_[1], e_))
-                elif not (d_[0] == "s" and d_[1] == "h"):
-                    return NotImplemented
-            if mats == [("A", 1)]:
-                return (F.sym("n"), F.sym("n"))
-            if mats == [("B", 1)]:
-                return (F.sym("r"), F.sym("i"))
+            mats = [(a_, e_) for a_, e_ in mono if not (F.atom_desc(a_)[0] == "s" and F.atom_desc(a_)[1] == "h")]
+            if len(mats) == 1 and mats[0][1] == 1 and (len(mono) > 1 or _c != 1):
+                return _shape_of(F.Rat(F.Poly.atom(mats[0][0])), shapes)
     except Exception:  # noqa
         pass
-    return NotImplemented
+    return None
+
+
+def _as_shape(v):
+    """the shape an allocation was asked for: a tuple of lengths; a single length is a one-dimensional array"""
+    if isinstance(v, tuple):
+        return tuple(to_rat(x) for x in v)
+    if isinstance(v, F.Rat) and not is_unknown(v):
+        return (v,)
+    return None
+
+
+def _subs_atom(v, atom, new):
+    """v with the opaque application `atom` (a value that is exactly one atom) replaced by `new`"""
+    (m, _c), = atom.n.t.items()
+    mp = {m[0][0]: F._R(new)}
+    return F._subs_poly(v.n, mp) / F._subs_poly(v.d, mp)
+
+
+def _covers(outer, inner):
+    """every element the canonical index `inner` selects is selected by `outer` (decided on the interval bounds)"""
+    a, _t = I._index_items(outer)
+    b, _t = I._index_items(inner)
+    if len(a) != len(b):
+        return False
+    for s, t in zip(a, b):
+        sp, tp = I._sel_parts(s), I._sel_parts(t)
+        if sp is None or tp is None:
+            if sp is None and tp is None and I.same_value(s, t):
+                continue
+            return False
+        if I.sign_of(tp[0] - sp[0]) not in (0, 1) or I.sign_of(sp[1] - tp[1]) not in (0, 1):
+            return False
+    return True
+
+
+def _content(M, cells):
+    """what a freshly allocated all-zero array holds after the recorded stores, whatever their order and spelling: a list of
+    [selection, value, statement] over pairwise disjoint selections with non-zero values.  Second result: why that could not be decided
+    (a store whose selection is not resolved, or that may partly overlap an earlier one), else None."""
+    content = []
+    for base, ix, v, st, aug in cells:
+        if not I.same_value(base, M):
+            continue
+        if is_unknown(ix) or not isinstance(ix, F.Rat) or not I.index_is_canonical(ix):
+            return content, f"a store into the array with an index the rule cannot resolve to rows / columns: {ix!r}"[:300]
+        v = to_rat(v)
+        if is_unknown(v):
+            return content, f"a stored value could not be evaluated: {v!r}"[:300]
+        same = [e for e in content if I.same_value(e[0], ix)]
+        rest = [e for e in content if not I.same_value(e[0], ix)]
+        if aug:
+            if any(not I.intervals_disjoint(e[0], ix) for e in rest):
+                return content, "an in-place update of a part of the array that may overlap an earlier store"
+            v = _subs_atom(v, F.fn("idx", M, ix), same[0][1] if same else F.const(0))
+            if I.atoms_named(v, "idx") and any(I.same_value(a_[0], M) for _n, a_ in I.atoms_named(v, "idx") if a_ and isinstance(a_[0], F.Rat)):
+                return content, "a stored value read from the array itself"
+        else:
+            covered = [e for e in rest if _covers(ix, e[0])]
+            rest = [e for e in rest if not any(e is c_ for c_ in covered)]
+            if any(not I.intervals_disjoint(e[0], ix) for e in rest):
+                return content, "a store that may partly overlap an earlier one"
+        content = rest + ([[ix, v, st]] if not (v.is_const() and v.is_zero()) else [])
+    return content, None
 
 
 def r6_augmented(ctx):
     """getEPQ2: the augmented matrix handed to _expm_SS holds A h, B h (and the identity for a first-order hold) in the blocks the exponential
-    of which contains E, P, Q; it can hold them (floating dtype whatever the dtypes of A and h); E, P, Q are the blocks documented"""
+    of which contains E, P, Q; it can hold them (floating dtype whatever the dtypes of A and h); E, P, Q are the blocks documented.
+    Blocks are decided by the rows / columns they select in an array of the allocated shape, not by how the bounds are written."""
     fn = ctx.src.func(EXPM, "getEPQ2")
     A, h, B = F.sym("A"), F.sym("h"), F.sym("B")
     regimes = (("B given", B, False, "B.shape[1]", None), ("B is None", None, False, "n", "np.eye(n)"),
@@ -1139,24 +1212,44 @@ def r6_augmented(ctx):
     for rlabel, Bval, half, i_txt, B_txt in regimes:
         for order in (0, 1):
             bufs = {}
+            shapes = {}
 
-            def extra(it, name, pos, kw, node, bufs=bufs):
-                if name in ("np.zeros", "np.empty") and pos:
+            def extra(it, name, pos, kw, node, bufs=bufs, shapes=shapes):
+                if name in ("np.zeros", "np.empty") and (pos or "shape" in kw):
                     s = F.sym(f"buffer{len(bufs) + 1}")
-                    bufs[I.sym_name(s)] = (pos[0], pos[1] if len(pos) > 1 else kw.get("dtype"), node)
+                    sh = _as_shape(pos[0] if pos else kw["shape"])
+                    bufs[I.sym_name(s)] = (sh if sh is not None else (pos[0] if pos else kw["shape"]), pos[1] if len(pos) > 1 else kw.get("dtype"), node)
+                    shapes[I.sym_name(s)] = sh
                     return s
-                if name in ("np.eye", "np.identity") and len(pos) == 1:
+                if name in ("np.eye", "np.identity") and 1 <= len(pos) <= 2 and set(kw) <= {"dtype"} \
+                        and (len(pos) == 1 or I.same_value(to_rat(pos[0]), to_rat(pos[1]))):
                     return F.fn("eye", to_rat(pos[0]))
                 if name == "getattr" and pos[1] == "shape" and isinstance(pos[0], F.Rat):
-                    return _shape_of(pos[0], bufs)
-                if name == "len" and len(pos) == 1 and isinstance(pos[0], F.Rat):
-                    sh = _shape_of(pos[0], bufs)
-                    return sh[0] if isinstance(sh, tuple) else NotImplemented
+                    sh = it.shape(pos[0])
+                    return sh if sh is not None else NotImplemented
+                if name == "getattr" and pos[1] == "ndim" and isinstance(pos[0], F.Rat):
+                    sh = it.shape(pos[0])
+                    return F.const(len(sh)) if sh is not None else NotImplemented
+                if name in ("len", "np.size", "np.shape") and isinstance(pos[0] if pos else None, F.Rat):
+                    sh = it.shape(pos[0])
+                    if sh is None:
+                        return NotImplemented
+                    if name == "np.shape":
+                        return sh
+                    if name == "len":
+                        return sh[0] if sh else NotImplemented
+                    ax = pos[1] if len(pos) > 1 else kw.get("axis")
+                    if ax is not None and I.is_const(ax) and 0 <= int(I.cval(ax)) < len(sh):
+                        return sh[int(I.cval(ax))]
+                    return NotImplemented
                 if name == "_expm_SS":
-                    return F.sym("EM")
+                    em = F.sym("EM")
+                    shapes["EM"] = it.shape(pos[0]) if pos and isinstance(pos[0], F.Rat) else None      # exp(M) has the shape of M
+                    return em
                 return NotImplemented
 
             it = Interp(ctx, EXPM, hook=_ordered_hook(extra), erase=False)
+            it.shape_of = lambda v, shapes=shapes: _shape_of(v, shapes)
             ret = it.call("getEPQ2", [A, h, F.const(order), Bval, half])
             call = _last(it.calls, "_expm_SS")
             tag = f"getEPQ2(order={order}; {rlabel})"
@@ -1202,22 +1295,32 @@ def r6_augmented(ctx):
             want_shape = it.expr("(n + 2 * i, n + 2 * i)" if order == 1 else "(n + i, n + i)", env)
             ok = I.same_value(shape, want_shape)
             verdict(ctx, ok, f"{tag}: the augmented matrix is square of size n + {'2 i' if order else 'i'}", znode, repr(shape)[:200], [shape])
-            blocks = [("M[:n, :n]", "A * h", "A h in the leading block")]
+            if not ok:
+                continue            # where a block lies is decided in an array of the documented shape
+            blocks = [("M[:n, :n]", "A * h", "A h in the leading block"), ("M[:r, n:n + i]", "B * h", "B h to the right of it")]
             if order == 1:
-                blocks += [("M[:r, n:n + i]", "B * h", "B h to the right of it"), ("M[n:n + i, n + i:]", "np.eye(i)", "the identity coupling u and du")]
-            else:
-                blocks += [("M[:r, n:]", "B * h", "B h to the right of it")]
-            cells = [(ix, v, st) for base, ix, v, st, aug in it.cells if I.same_value(base, M) and not aug]
-            augs = [st for base, ix, v, st, aug in it.cells if I.same_value(base, M) and aug]
+                blocks += [("M[n:n + i, n + i:]", "np.eye(i)", "the identity coupling u and du")]
+            content, undecided = _content(M, it.cells)
+            used = []
             for where_txt, val_txt, what in blocks:
                 wi = fn_parts(it.expr(where_txt, env))[1][1]
                 wv = it.expr(val_txt, env)
-                hit = [c_ for c_ in cells if I.same_value(c_[0], wi)]
+                hit = [c_ for c_ in content if I.same_value(c_[0], wi)]
+                used += hit
                 ok = len(hit) == 1 and I.same_value(hit[0][1], wv)
-                verdict(ctx, ok, f"{tag}: {what} ({where_txt} = {val_txt})", hit[0][2] if hit else znode,
-                        {"stores": [(repr(c_[0])[:80], repr(c_[1])[:80]) for c_ in cells]}, [c_[0] for c_ in cells] + [c_[1] for c_ in cells])
-            ok = len(cells) == len(blocks) and not augs
-            ctx.check(ok, f"{tag}: nothing else is stored into the augmented matrix", znode, None if ok else len(cells))
+                title = f"{tag}: {what} (rows / columns {where_txt} hold {val_txt})"
+                if not ok and undecided is not None:
+                    ctx.error(title, hit[0][2] if hit else znode, undecided)
+                    continue
+                verdict(ctx, ok, title, hit[0][2] if hit else znode,
+                        {"array content": [(repr(c_[0])[:80], repr(c_[1])[:80]) for c_ in content]}, [c_[0] for c_ in content] + [c_[1] for c_ in content])
+            others = [c_ for c_ in content if not any(c_ is u_ for u_ in used)]
+            title = f"{tag}: every other element of the augmented matrix is zero"
+            if undecided is not None:
+                ctx.error(title, znode, undecided)
+            else:
+                verdict(ctx, not others, title, others[0][2] if others else znode,
+                        {"also stored": [(repr(c_[0])[:80], repr(c_[1])[:80]) for c_ in others]}, [c_[1] for c_ in others])
             ok = I.same_value(ca[1], A * h) and I.same_value(ca[2], F.const(order))
             verdict(ctx, ok, f"{tag}: _expm_SS receives the augmented matrix, A h and the order", call.node, repr(ca[1:])[:200], ca[1:3])
             outs = {"E": "EM[:n, :n]"}
@@ -1228,7 +1331,12 @@ def r6_augmented(ctx):
             for nm, got in zip(("E", "P", "Q"), ret):
                 wv = it.expr(outs[nm], env)
                 ok = I.same_value(got, wv)
-                verdict(ctx, ok, f"{tag}: {nm} = {outs[nm]}", fn, repr(got)[:200], [got])
+                title = f"{tag}: {nm} = {outs[nm]}"
+                bad = I.noncanonical_indices(got) if isinstance(got, F.Rat) else []
+                if not ok and bad:
+                    ctx.error(title, fn, f"an index the rule cannot resolve to rows / columns: {bad[0]!r}"[:300])
+                    continue
+                verdict(ctx, ok, title, fn, repr(got)[:200], [got])
 
 
 RULES = [
